@@ -124,8 +124,15 @@ def make_world(hname):
     harness.hard_reset()
     _SHARED.clear()
     gin.parse_config(CONFIG)
-    # History: a thread that used scopes has already come and gone (thread identifiers are recycled by the OS: the
-    # next thread started typically receives the identifier of the one that just died).
+    # The launching thread uses scopes itself and starts its workers inside copies of its own context (this is what
+    # asyncio.to_thread and executors that propagate context do): the copies are taken while a scope is active.
+    import contextvars  # pylint: disable=import-outside-toplevel
+    bodies = HARNESSES[hname]()
+    with gin.config_scope('launcher'):
+      ctxs = [contextvars.copy_context() for _ in bodies]
+    # History, LAST (so that the thread that has just died is the most recent user of scopes): a thread that used scopes
+    # has come and gone; thread identifiers are recycled by the OS, the next thread started typically receives the
+    # identifier of the one that just died.
     def gone():
       with gin.config_scope('gone'):
         with gin.config_scope('deeper'):
@@ -133,12 +140,6 @@ def make_world(hname):
     t = threading.Thread(target=gone)
     t.start()
     t.join()
-    # The launching thread uses scopes itself and starts its workers inside copies of its own context (this is what
-    # asyncio.to_thread and executors that propagate context do): the copies are taken while a scope is active.
-    import contextvars  # pylint: disable=import-outside-toplevel
-    bodies = HARNESSES[hname]()
-    with gin.config_scope('launcher'):
-      ctxs = [contextvars.copy_context() for _ in bodies]
     return [(lambda b=b, c=c: c.run(b)) for b, c in zip(bodies, ctxs)]
   return make
 
